@@ -222,6 +222,21 @@ func c12Dims(s refdl.Scenario) []c12Dim {
 				ci := ci
 				dims = append(dims, c12Dim{"swap-check-queries", []func(*refdl.Scenario){func(sc *refdl.Scenario) {
 					cs := get(sc)
+					// composed with a permutation of the checks (thorough: pairs of changes) the
+					// two-query check may sit at another index: swap the one that is there
+					ci := ci
+					if ci >= len(cs) || len(cs[ci].Queries) != 2 {
+						ci = -1
+						for k := range cs {
+							if len(cs[k].Queries) == 2 {
+								ci = k
+								break
+							}
+						}
+						if ci < 0 {
+							return
+						}
+					}
 					cs[ci] = refdl.Check{Queries: []refdl.Rule{cs[ci].Queries[1], cs[ci].Queries[0]}}
 				}}})
 			}
@@ -238,6 +253,19 @@ func c12Dims(s refdl.Scenario) []c12Dim {
 		if len(r.Body) == 2 {
 			ri := ri
 			dims = append(dims, c12Dim{"swap-body-atoms", []func(*refdl.Scenario){func(sc *refdl.Scenario) {
+				ri := ri
+				if ri >= len(sc.Auth.Rules) || len(sc.Auth.Rules[ri].Body) != 2 {
+					ri = -1
+					for k := range sc.Auth.Rules {
+						if len(sc.Auth.Rules[k].Body) == 2 {
+							ri = k
+							break
+						}
+					}
+					if ri < 0 {
+						return
+					}
+				}
 				rr := sc.Auth.Rules[ri]
 				sc.Auth.Rules[ri] = refdl.Rule{Head: rr.Head, Body: []refdl.Atom{rr.Body[1], rr.Body[0]}, Exprs: rr.Exprs}
 			}}})
